@@ -471,6 +471,99 @@ def check_borrow_loop(case):
                         f"alive={worst[0]} after {worst[1]} items, bound={bound} length={length} {case}")
 
 
+# ---- chain.from_iterable over a long lazy stream of small iterators -----------------------------
+
+
+@st.composite
+def chain_many_cases(draw, tier):
+    hi = 300 if tier == "quick" else 1500
+    return {"tool": "chain-many", "length": draw(st.integers(60, hi)), "per": draw(st.integers(1, 3)),
+            "inner": draw(st.sampled_from(["aclass", "agen", "aclass-noclose"])),
+            "outer": draw(st.sampled_from(["agen", "aclass"]))}
+
+
+def check_chain_many(case):
+    """the outer stream hands out many small inner iterators, each holding its own few records"""
+    reg = Registry()
+    n, per = case["length"], case["per"]
+    ctx = Ctx("a")
+    bound = 3 * per + 6
+    worst = [0, 0]
+
+    class Inner:
+        def __init__(self, k):
+            self.records = [reg.new(k * per + j) for j in range(per)]  # alive as long as this iterator is
+            self.pos = 0
+
+        def __aiter__(self):
+            return self
+
+        async def __anext__(self):
+            if self.pos >= len(self.records):
+                raise StopAsyncIteration
+            self.pos += 1
+            return self.records[self.pos - 1]
+
+    class ClosableInner(Inner):
+        async def aclose(self):
+            self.pos = len(self.records)
+
+    def make_inner(k):
+        if case["inner"] == "agen":
+            records = [reg.new(k * per + j) for j in range(per)]
+
+            async def gen(records=records):
+                for r in records:
+                    yield r
+            del records
+            return gen()
+        return (ClosableInner if case["inner"] == "aclass" else Inner)(k)
+
+    def outer():
+        count = n // per
+        if case["outer"] == "agen":
+            async def gen():
+                for k in range(count):
+                    yield make_inner(k)
+            return gen()
+
+        class Outer:
+            k = 0
+
+            def __aiter__(self):
+                return self
+
+            async def __anext__(self):
+                if self.k >= count:
+                    raise StopAsyncIteration
+                self.k += 1
+                return make_inner(self.k - 1)
+
+            async def aclose(self):
+                self.k = count
+
+        return Outer()
+
+    async def consume():
+        step = 0
+        async for item in a.chain.from_iterable(outer()):
+            del item
+            step += 1
+            if step % 10 == 0:
+                alive = reg.alive_gc(bound)
+                if alive > worst[0]:
+                    worst[0], worst[1] = alive, step
+
+    with loop_mode(ctx, "hooks"):
+        outcome = run(ctx, consume())
+        close_orphans(ctx)
+    if outcome[0] != "return":
+        raise Violation("C20/chain-many/unexpected-exception", repr(outcome))
+    if worst[0] > bound:
+        raise Violation("C20/chain-many/retains-more-than-window",
+                        f"alive={worst[0]} after {worst[1]} items, bound={bound} {case}")
+
+
 # ---- groupby ---------------------------------------------------------------
 
 
@@ -519,7 +612,7 @@ def check_groupby(case):
 
 def nontrivial(case):
     name = case["tool"]
-    if name == "borrow-loop":
+    if name in ("borrow-loop", "chain-many"):
         return case["length"] >= 60
     if name == "tee":
         return case["length"] >= 10 * (max(case["lag"]) + case["n"] + 4)
@@ -534,6 +627,8 @@ def shards(tier):
     out = [Shard(name, check_stream, strategy=stream_cases(name, tier), n=150, nontrivial=nontrivial,
                  thorough_mult=10) for name in list(STREAM) + list(AGG)]
     out.append(Shard("tee", check_tee, strategy=tee_cases(tier), n=800, nontrivial=nontrivial, thorough_mult=10))
+    out.append(Shard("chain-many", check_chain_many, strategy=chain_many_cases(tier), n=150, nontrivial=nontrivial,
+                     thorough_mult=10))
     out.append(Shard("borrow-loop", check_borrow_loop, strategy=borrow_cases(tier), n=150, nontrivial=nontrivial,
                      thorough_mult=10))
     out.append(Shard("groupby", check_groupby, strategy=groupby_cases(tier), n=250, nontrivial=nontrivial,
